@@ -10704,6 +10704,12 @@ impl SctpTransport {
     pub async fn verif_send_init(&self) -> Result<()> {
         self.inner.send_init().await
     }
+
+    /// C07: put the association back into its initial state (`new_verif_link` drops the stock runner,
+    /// whose drop guard marks the association Closed).
+    pub fn verif_set_state_new(&self) {
+        *self.inner.state.lock() = SctpState::New;
+    }
 }
 
 /// verif hook (lifecycle, C17): set / clear the association close reason so the
